@@ -1,4 +1,4 @@
-(** Model of src/epd1in54_v2/mod.rs — STUB, not yet transcribed. *)
+(** Model of src/epd1in54_v2/mod.rs (GDEH0154D67, type-A command set). *)
 From Coq Require Import List NArith Bool.
 From EPD Require Import Iface Ops Drv.Luts.
 Import ListNotations.
@@ -8,11 +8,127 @@ Open Scope m_scope.
 Module Epd1in54_v2.
 Definition WIDTH : N := 200.
 Definition HEIGHT : N := 200.
+Definition IS_BUSY_LOW := false.
 
-Definition init : M unit := ret tt.
+Definition LUT_FULL_UPDATE := epd1in54_v2_LUT_FULL_UPDATE.
+Definition LUT_PARTIAL_UPDATE := epd1in54_v2_LUT_PARTIAL_UPDATE.
 
-Definition exec (k : N) (o : op) : option (M rval) := None.
+(** [&buffer[a..b]] and [buffer[i]] on a table (callers check the length first) *)
+Definition slice (l : list N) (a b : nat) : list N := firstn (b - a) (skipn a l).
+Definition idx (l : list N) (i : nat) : N := nth i l 0.
+
+Definition wait_until_idle : M unit := wait_idle IS_BUSY_LOW.
+
+Definition set_ram_area (sx sy ex ey : N) : M unit :=
+  wait_until_idle ;;
+  assert (sx <? ex) ;;
+  assert (sy <? ey) ;;
+  cmd_with_data 0x44 [u8 (shr sx 3); u8 (shr ex 3)] ;;
+  cmd_with_data 0x45 [u8 sy; u8 (shr sy 8); u8 ey; u8 (shr ey 8)].
+
+Definition set_ram_counter (x y : N) : M unit :=
+  wait_until_idle ;;
+  cmd_with_data 0x4E [u8 (shr x 3)] ;;
+  cmd_with_data 0x4F [u8 y; u8 (shr y 8)].
+
+Definition use_full_frame : M unit :=
+  set_ram_area 0 0 (WIDTH - 1) (HEIGHT - 1) ;;
+  set_ram_counter 0 0.
+
+Definition set_lut_helper (buffer : list N) : M unit :=
+  wait_until_idle ;;
+  assert (N.of_nat (length buffer) =? 159) ;;
+  cmd_with_data 0x32 (slice buffer 0 153) ;;
+  cmd_with_data 0x3F [idx buffer 153] ;;
+  wait_until_idle ;;
+  cmd_with_data 0x03 [idx buffer 154] ;;
+  cmd_with_data 0x04 [idx buffer 155; idx buffer 156; idx buffer 157] ;;
+  cmd_with_data 0x2C [idx buffer 158].
+
+Definition set_lut (r : option N) : M unit :=
+  (match r with Some v => modify (set_refresh v) | None => ret tt end) ;;
+  s <- get ;;
+  (if refresh s =? 0 then set_lut_helper LUT_FULL_UPDATE else set_lut_helper LUT_PARTIAL_UPDATE) ;;
+  s <- get ;;
+  when_ (refresh s =? 1)
+    (cmd_with_data 0x37 [0x0; 0x0; 0x0; 0x0; 0x0; 0x40; 0x0; 0x0; 0x0; 0x0] ;;
+     cmd_with_data 0x3C [0x80] ;;
+     cmd_with_data 0x22 [0xc0] ;;
+     cmd 0x20 ;;
+     cmd 0xFF).
+
+Definition init : M unit :=
+  reset 10000 10000 ;;
+  wait_until_idle ;;
+  cmd 0x12 ;;
+  wait_until_idle ;;
+  cmd_with_data 0x01 [u8 (HEIGHT - 1); 0x0; 0x00] ;;
+  cmd_with_data 0x11 [0x3] ;;
+  set_ram_area 0 0 (WIDTH - 1) (HEIGHT - 1) ;;
+  cmd_with_data 0x18 [0x80] ;;
+  cmd_with_data 0x1A [0xB1; 0x20] ;;
+  set_ram_counter 0 0 ;;
+  set_lut None ;;
+  wait_until_idle.
+
+Definition sleep : M unit :=
+  wait_until_idle ;;
+  cmd_with_data 0x10 [0x01].
+
+Definition update_frame (k len : N) : M unit :=
+  wait_until_idle ;;
+  use_full_frame ;;
+  cmd_with_data_e 0x24 (DArg k 0 0 len).
+
+Definition update_partial_frame (k len x y w h : N) : M unit :=
+  wait_until_idle ;;
+  ex <- add32 x w ;;
+  ey <- add32 y h ;;
+  set_ram_area x y ex ey ;;
+  set_ram_counter x y ;;
+  cmd_with_data_e 0x24 (DArg k 0 0 len).
+
+Definition display_frame : M unit :=
+  wait_until_idle ;;
+  s <- get ;;
+  (if refresh s =? 0 then cmd_with_data 0x22 [0xC7]
+   else if refresh s =? 1 then cmd_with_data 0x22 [0xCF]
+   else ret tt) ;;
+  cmd 0x20 ;;
+  cmd 0xFF.
+
+Definition update_and_display_frame (k len : N) : M unit :=
+  update_frame k len ;;
+  display_frame.
+
+Definition clear_frame : M unit :=
+  wait_until_idle ;;
+  use_full_frame ;;
+  s <- get ;;
+  let color := if bg s =? cWhite then 0xff else 0x00 in
+  cmd 0x24 ;;
+  data_x_times color (WIDTH / 8 * HEIGHT) ;;
+  cmd 0x26 ;;
+  data_x_times color (WIDTH / 8 * HEIGHT).
+
+Definition exec (k : N) (o : op) : option (M rval) :=
+  match o with
+  | OSleep => unit_ sleep
+  | OWakeUp => unit_ init
+  | OSetBg c => unit_ (modify (set_bg c))
+  | OGetBg => Some (s <- get ;; ret (RColor (bg s)))
+  | OWidth => Some (ret (RNum WIDTH))
+  | OHeight => Some (ret (RNum HEIGHT))
+  | OUpdateFrame len => unit_ (update_frame k len)
+  | OUpdatePartial len x y w h => unit_ (update_partial_frame k len x y w h)
+  | ODisplay => unit_ display_frame
+  | OUpdateAndDisplay len => unit_ (update_and_display_frame k len)
+  | OClear => unit_ clear_frame
+  | OSetLut r => unit_ (set_lut r)
+  | OWaitIdle => unit_ wait_until_idle
+  | _ => None
+  end.
 
 Definition drv (ft : feat) : driver :=
-  mkDriver WIDTH HEIGHT true d0 init exec.
+  mkDriver WIDTH HEIGHT true (mkD cWhite 0 false false 0 None) init exec.
 End Epd1in54_v2.
